@@ -3,7 +3,7 @@
 import json, sys
 pid, wt = sys.argv[1], sys.argv[2]
 p = [json.loads(l) for l in open('/verif/properties.jsonl') if json.loads(l)['id'] == pid][0]
-print(f"""You are helping to evaluate a verification framework by writing realistic buggy variants ("seeded changes") of an open-source Python library. Work ONLY inside the scratch git worktree {wt} (a checkout of the library G-BigSMILES: Python parser and stochastic generator for a polymer line notation; sources in {wt}/src/gbigsmiles, docs in {wt}/README.md and {wt}/SI.md, tests in {wt}/tests). Do NOT read or touch /repo or /verif, and do not use git commit.
+print(f"""You are helping to evaluate a verification framework by writing realistic buggy variants ("seeded changes") of an open-source Python library. Work ONLY inside the scratch git worktree {wt} (a checkout of the library G-BigSMILES: Python parser and stochastic generator for a polymer line notation; sources in {wt}/src/gbigsmiles, docs in {wt}/README.md and {wt}/SI.md, tests in {wt}/tests). Do NOT read or touch /repo or /verif, do not use git commit, and do NOT use git stash (the stash is shared with other worktrees of the same repository; save a change with `git diff > x.patch`, undo it with `git checkout -- .`, re-apply it with `git apply x.patch`).
 
 How to run things:
 - Python is /venv/bin/python. To import the worktree's code (and not the installed copy) ALWAYS set PYTHONPATH={wt}/src, e.g.  cd {wt} && PYTHONPATH={wt}/src /venv/bin/python demo.py   (check gbigsmiles.__file__ points into {wt}).
